@@ -118,7 +118,15 @@ def run(ck):
             for p in returning(paths_of(prog, th, sticky=True), inst):
                 shape_err_verdict(ck, "C08.R4", inst, [p])
                 w, ed, num, den, refn, refd = p.value
-                ck.check(w.term == ed.term, "C08.R4", inst + ":weight=numerator/denominator", wsite, "weight(vp, v) is not numerator(vp, v) / denominator(v)")
+                # by value: the complex quotient as a pair of rational functions (a division written out, scaled or not, is the same
+                # function as cplx.elementwise_division; what cannot be taken apart is not decided)
+                same_w = w.term == ed.term
+                if not same_w and w.term is not None and ed.term is not None:
+                    cw, ce = T.as_stack0(w.term), T.as_stack0(ed.term)
+                    same_w = None
+                    if cw is not None and ce is not None and len(cw) == len(ce) == 2:
+                        same_w = all(x == y or T.ratfun_equal(x, y) for x, y in zip(cw, ce))
+                ck.check(same_w, "C08.R4", inst + ":weight=numerator/denominator", wsite, "weight(vp, v) is not numerator(vp, v) / denominator(v)")
                 ck.check(num.term == refn.term, "C08.R4", inst + ":numerator", prog.method(cls, "importance_sampling_numerator").site(),
                          "numerator(vp, v) is not %s" % ("rho(vp, v) (argument order rho(s', s))" if cls == "DensityMatrix" else "psi(vp)"),
                          deps=sorted(num.term.syms() & {"v", "vp"}))
